@@ -1,6 +1,7 @@
 package main
 
 import (
+	"regexp"
 	"crypto/sha1"
 	"encoding/hex"
 	"encoding/json"
@@ -134,7 +135,50 @@ type PropResult struct {
 	Pkgs        int
 }
 
-func classify(prop string, obs []Obligation, t *Tables) []Obligation {
+var ordinalSuffix = regexp.MustCompile(`#\d+$`)
+var paramRef = regexp.MustCompile(`\$\d+`)
+
+// inheritedAudit: an audited entry of function F also covers the same
+// construct found in a private helper that only F (transitively) calls — the
+// audited statement was moved, not added.  An entry is consumed by at most one
+// obligation and only when F itself no longer produces it.
+func inheritedAudit(c *Ctx, o *Obligation, t *Tables, produced map[string]bool, consumed map[string]bool) (AuditEntry, bool) {
+	if c == nil {
+		return AuditEntry{}, false
+	}
+	fn, _, _ := c.LookupFunc(o.Func)
+	if fn == nil {
+		return AuditEntry{}, false
+	}
+	// ordinals and parameter positions differ between a function and its helper
+	loose := func(s string) string {
+		return paramRef.ReplaceAllString(ordinalSuffix.ReplaceAllString(s, ""), "_")
+	}
+	want := loose(o.Construct)
+	var keys []string
+	for k, e := range t.Audited {
+		if e.Rule == o.Rule && e.Func != o.Func && loose(e.Construct) == want && !produced[k] && !consumed[k] {
+			keys = append(keys, k)
+		}
+	}
+	sort.Strings(keys)
+	for _, k := range keys {
+		e := t.Audited[k]
+		if via, ok := c.privateHelperOf(fn, func(name string) bool { return name == e.Func }, 0); ok {
+			consumed[k] = true
+			e.Reason = "moved into a private helper of " + via + "; audited there: " + e.Reason
+			return e, true
+		}
+	}
+	return AuditEntry{}, false
+}
+
+func classify(prop string, obs []Obligation, t *Tables, c *Ctx) []Obligation {
+	produced := map[string]bool{}
+	for i := range obs {
+		produced[obs[i].Key()] = true
+	}
+	consumed := map[string]bool{}
 	for i := range obs {
 		o := &obs[i]
 		if o.Verdict == Proved {
@@ -145,6 +189,11 @@ func classify(prop string, obs []Obligation, t *Tables) []Obligation {
 			o.Status = "audited"
 			o.Reason = e.Reason
 			t.usedAud[o.Key()] = true
+			continue
+		}
+		if e, ok := inheritedAudit(c, o, t, produced, consumed); ok {
+			o.Status = "audited"
+			o.Reason = e.Reason
 			continue
 		}
 		if e, ok := t.Known[prop+"|"+o.Key()]; ok {
